@@ -834,7 +834,7 @@ func oracle(k kase, impl string) (fails []ofail) {
 		var want []string
 		switch reg {
 		case "space":
-			want = strings.Fields(k.s)
+			want = strings.FieldsFunc(k.s, func(r rune) bool { return r == ' ' || r == '\t' || r == '\n' }) // interp.splitBlanks
 		case "empty-subject":
 			want = nil
 		case "empty-sep":
